@@ -1,7 +1,7 @@
 # p_bundle engine: C46
 PROPS = {
     "C46": dict(
-        engine="p_bundle", quick_checks=10000, thorough_checks=120000, quick_shards=14, thorough_shards=16,
+        engine="p_bundle", quick_checks=10000, thorough_checks=16000, quick_shards=14, thorough_shards=16,
         quick_budget_s=240, thorough_budget_s=1500, thorough_race=True,
         needs_cli=False, gomaxprocs=[4, 8, 2, 4], level="fault_enumeration",
         rule="placeholder",
